@@ -167,6 +167,14 @@ def setitem_fails(ctx, case):
         return 'setitem-exception-%s: x[%r] = <%s> raised %s although NumPy accepts the assignment slice-wise' % (kind, list(idx), kind, type(ex).__name__)
     if not np.array_equal(u.data, want):
         return 'setitem-%s: x[%r] = <%s> differs from the slice-wise NumPy assignment' % (kind, list(idx), kind)
+    # the model the theorems are about (Model/Index.lean: utSetitem / utSetitemConst)
+    if kind in ('utpm', 'utpm-bcast'):
+        mm = ctx.model.arrs({'op': 'np', 'what': 'utsetitem', 'x': enc_arr(x), 'idx': enc_idx(idx), 'v': enc_arr(r)})
+    else:
+        mm = ctx.model.arrs({'op': 'np', 'what': 'utsetitemconst', 'x': enc_arr(x), 'idx': enc_idx(idx),
+                             'v': enc_arr(np.asarray(rhs, dtype=float))})
+    if isinstance(mm, str) or not np.array_equal(np.asarray(mm[0]).reshape(u.data.shape), u.data):
+        return 'setitem-model-%s: x[%r] = <%s> differs from the model utSetitem%s' % (kind, list(idx), kind, '' if kind.startswith('utpm') else 'Const')
     return None
 
 
